@@ -48,6 +48,9 @@ func ParseCSRResponse(signPrivateKey *sm2.PrivateKey, der []byte) (CSRResponse, 
 		return result, errors.New("smx509: invalid CSRResponse asn1 data")
 	}
 
+	if len(resp.SignCerts) == 0 {
+		return result, errors.New("smx509: invalid CSRResponse asn1 data")
+	}
 	signCerts := make([]*Certificate, len(resp.SignCerts))
 	for i, rawCert := range resp.SignCerts {
 		signCert, err := ParseCertificate(rawCert.FullBytes)
